@@ -1,5 +1,6 @@
 import OlVerif.Lower.Nsp
 import OlVerif.Lower.Binder
+import OlVerif.Lower.WfOut
 namespace OlVerif.C06
 /-- stores and loads of one name in one namespace use the same storage: a dict-stored name is
     read from the dict it is written to (function namespaces, no comprehension shadowing) -/
@@ -79,5 +80,41 @@ def exStack : Stack :=
 example : pyBinder "x" exStack = some "d0" ∧ WalkOK "x" exStack := by
   refine ⟨by simp [exStack, exLoc, exNl, pyBinder, SymScope.lookup, SymScope.symbols], ?_⟩
   simp [exStack, exLoc, exNl, WalkOK, SymScope.lookup, SymScope.symbols, SymInfo.owns]
+
+/-- **The first iterable of a comprehension is resolved where the comprehension stands**: whatever the
+    comprehension's own variables are called, the first iterable of the lowered comprehension is the result of
+    transforming the source's first iterable with the names bound *outside* (Python evaluates it in the
+    enclosing scope; false of the code before FIX-D71, where `[x for x in x]` read its own variable). -/
+theorem first_iterable_outside (n : Nsp) (bound : List String) (elt : Expr) (t i : Expr) (ifs : List Expr) (a : Bool)
+    (gs : List Comp) (r : Expr) (h : transf n bound (.listComp elt (.mk t i ifs a :: gs)) = .ok r) :
+    ∃ elt' t' i' ifs' gs', r = .listComp elt' (.mk t' i' ifs' a :: gs') ∧ transf n bound i = .ok i' := by
+  simp only [transf] at h
+  obtain ⟨names, _, h⟩ := bind_ok h
+  obtain ⟨elt', _, h⟩ := bind_ok h
+  obtain ⟨gens', hg, h⟩ := bind_ok h
+  cases pure_ok h
+  simp only [transfComps] at hg
+  obtain ⟨t', _, hg⟩ := bind_ok hg
+  obtain ⟨i', hi, hg⟩ := bind_ok hg
+  obtain ⟨ifs', _, hg⟩ := bind_ok hg
+  obtain ⟨gs', _, hg⟩ := bind_ok hg
+  cases pure_ok hg
+  exact ⟨elt', t', i', ifs', gs', rfl, hi⟩
+
+/-- the other iterables, the conditions and the element see the comprehension's variables: a variable of the
+    comprehension read there stays the plain name -/
+theorem comprehension_variable_shadows (n : Nsp) (bound : List String) (x : String) (hx : x ∈ bound) :
+    n.getLoad bound x = .ok (.name x) := by
+  unfold Nsp.getLoad
+  cases n.kind <;> simp [hx]
+
+/-- non-vacuity: in a class body (`x` a member), `[x for x in x]` reads the member for its iterable -/
+example :
+    transf (.mk .class_ (.mk "K" .class_ 1 [exLoc] [] [] [] [] []) "" "" "d" [] [] [] false false [] []) []
+        (.listComp (.name "x") [.mk (.name "x") (.name "x") [] false])
+      = .ok (.listComp (.name "x") [.mk (.name "x") (dictLoad "d" "x") [] false]) := by
+  simp [transf, transfComps, transfTarget, transfList, compsTargetNames, compTargetNames, Nsp.getLoad, compMark,
+    Nsp.kind, Nsp.sym, Nsp.dictName, Nsp.outerMap, Nsp.globalsInComp,
+    SymScope.lookup, SymScope.symbols, exLoc, bind, Except.bind, pure, Except.pure]
 
 end OlVerif.C06
